@@ -53,13 +53,17 @@ def capture():
         got = []
         toks = probe_tokens()
 
-        def fa(expression, tokens, _g=got, _t=toks):
-            _g.append(("header", expression))
-            return [FakePattern(_t[:1])]
+        def make(got_, toks_):
+            # extra positional / keyword arguments (an offset, a flag) are accepted and ignored: only the expressions matter here
+            def fa(expression, tokens, *a, **kw):
+                got_.append(("header", expression))
+                return [FakePattern(toks_[:1])]
 
-        def sw(expression, tokens, _g=got):
-            _g.append(("follow-up", expression))
-            return None
+            def sw(expression, tokens, *a, **kw):
+                got_.append(("follow-up", expression))
+                return None
+            return fa, sw
+        fa, sw = make(got, toks)
 
         scope_utils.find_all, scope_utils.starts_with = fa, sw
         try:
@@ -72,6 +76,15 @@ def capture():
             raise core.HarnessError(f"seam scope_utils.find_all never hit for {name}")
         out[name] = got
     return out
+
+
+def build_dfa(expr):
+    """the automaton for a captured expression - or the captured object itself when the working tree hands the matcher a precompiled one"""
+    from codelimit.common.gsm.Expression import expression_to_nfa, nfa_to_dfa
+
+    if hasattr(expr, "start") and hasattr(expr, "is_accepting"):
+        return expr
+    return nfa_to_dfa(expression_to_nfa(expr))
 
 
 def tok(code, pos=0):
@@ -187,7 +200,7 @@ def canon(p, order, preds):
 def explore_expression(expr, agg, label):
     from codelimit.common.gsm.Expression import expression_to_nfa, nfa_to_dfa
 
-    dfa = nfa_to_dfa(expression_to_nfa(expr))
+    dfa = build_dfa(expr)
     order, preds = dfa_index(dfa)
     classes = token_classes(expr)
     p0, _, _ = run_history(dfa, [])
@@ -433,7 +446,7 @@ def replay(case):
             return [{"kind": "ambiguous-transition", "sig": {"language": case["language"], "role": role, "token": case["history"][-1].replace("\x00", ""), "level": "find_all"},
                      "detail": f"find_all over {case['history']}: {r['ambiguous']}"}]
         return []
-    dfa = nfa_to_dfa(expression_to_nfa(expr))
+    dfa = build_dfa(expr)
     base, alive, _ = run_history(dfa, case["history"][:-1])
     many = alive and count_accepting(base, tok(case["history"][-1], len(case["history"]) - 1)) > 1
     _, _, amb = run_history(dfa, case["history"])
